@@ -149,6 +149,10 @@ Result exec(const Plan& pl) {
     }
     set_cur_opf("C18 PreambleDetector nh=%d kind=%d thr=%.3f end=%lld", nh, kind, thr, static_cast<long long>(end));
     dsplib::PreambleDetector det(ha, thr);
+    // the caller's array is reused for something else as soon as the detector exists: the detector owns its reference
+    for (int i = 0; i < nh; ++i) {
+        ha[i] = cmplx_t{double((i * 7919 + 13) % 17) - 8.0, double((i * 104729 + 5) % 13) - 6.0};
+    }
     const int block = det.frame_len();
     const int64_t N = int64_t(total) * block;
     if (has && (end < nh - 1 || end >= N)) {
